@@ -403,13 +403,11 @@ pub fn s_reopen(p: &mut Pool) {
         chk!(t.commit().is_ok(), "s13: commit");
     }
     let before = *rusqlite::db();
-    let reopen = p.bool();
-    let st2 = if reopen {
-        drop(st);
-        open()
-    } else {
-        st
-    };
+    // the storage object is dropped and the directory opened again (always: a symbolic choice
+    // between the old and the new object is a pointer if-then-else, which CBMC did not get through
+    // in 25 min; the not-reopened case is what every other harness checks)
+    drop(st);
+    let st2 = open();
     chk!(*rusqlite::db() == before, "s13: reopening (journal pragma and CREATE ... IF NOT EXISTS re-run) does not change the database");
     let mut t = concrete(st2.txn(u(s.cid)).unwrap());
     match t.get_client() {
@@ -420,7 +418,7 @@ pub fn s_reopen(p: &mut Pool) {
         _ => chk!(false, "s13: client readable after reopen"),
     }
     usage_ok();
-    cov!(reopen, "s13.cov: reopened");
+    cov!(s.nv > 0, "s13.cov: reopened a database that holds earlier versions");
     std::mem::forget(t);
     std::mem::forget(st2);
 }
